@@ -128,7 +128,9 @@ def run_case(case, ctx):
     else:
         d = {k: v for k, v in iv}
         init = [[i, d.get(i, "free")] for i in insts]
+    ign = case.get("ign", "clk")
     return {"kind": "sequential_unroll", "c": case["c"], "n": case["n"], "d": "d", "q": "q", "add_flop_outputs": case["afo"],
+            "ignore": [] if ign is None else [ign] if isinstance(ign, str) else list(ign), "remove_unloaded": case["ru"],
             "init": init, "uc": proj(uc) if uc is not None else {}, "iomap": [[k, list(v)] for k, v in sorted(iomap.items())],
             "exc": exc, "nontrivial": case["n"] >= 2}
 
